@@ -64,6 +64,49 @@ pub fn run_scenario(id: &str, sc: &Value, fail_at: usize, mode: FaultMode) -> Ou
             // handed to the byte front ends after them (dropped by finalize - the finished file is that of the whole frames)
             let frames = sc["frames"].as_u64().unwrap_or(40) as usize;
             let tail = sc["tail"].as_u64().unwrap_or(0) as usize;
+            // "big": one write of that many mono 8-bit PCM frames (several blocks in one call; more than a frame can ever hold when
+            // >= 65536), after which the caller finalizes WHATEVER the write returned - as a clean-up path or a Drop would
+            if let Some(big) = sc["big"].as_u64() {
+                let pcm: Vec<i32> = (0..big as i32).map(|i| (i % 100) - 50).collect();
+                let mut rw = FaultyRW::new(vec![0xEE; start], fail_at, mode, false, true);
+                rw.pos = start as u64;
+                let explicit = sc["explicit_finalize"].as_bool().unwrap_or(true);
+                let r = catch(|| -> Result<Vec<u8>, String> {
+                    macro_rules! after {
+                        ($w:ident, $r:expr) => {{
+                            let r = $r;
+                            if explicit {
+                                let f = $w.finalize().map_err(|e| e.to_string());
+                                r.and(f)?;
+                            } else {
+                                // dropping finalizes without reporting: only a panic is an outcome here (the fault-free run passes as the reference)
+                                drop($w);
+                                r?;
+                                if fail_at != 0 {
+                                    return Err("dropped: completion is not reported".to_string());
+                                }
+                            }
+                        }};
+                    }
+                    match fe {
+                        "byte-le" => {
+                            let bytes = samples_to_bytes(&pcm, 8, false);
+                            let mut w: FlacByteWriter<_, LittleEndian> = FlacByteWriter::new(&mut rw, opts, 44100, 8, 1, None).map_err(|e| e.to_string())?;
+                            after!(w, w.write_all(&bytes).map_err(|e| e.to_string()))
+                        }
+                        "sample" => {
+                            let mut w = FlacSampleWriter::new(&mut rw, opts, 44100, 8, 1, None).map_err(|e| e.to_string())?;
+                            after!(w, w.write(&pcm).map_err(|e| e.to_string()))
+                        }
+                        _ => {
+                            let mut w = FlacChannelWriter::new(&mut rw, opts, 44100, 8, 1, None).map_err(|e| e.to_string())?;
+                            after!(w, w.write([&pcm[..]]).map_err(|e| e.to_string()))
+                        }
+                    }
+                    Ok(vec![])
+                });
+                return finish(r, rw);
+            }
             let pcm = pcm40()[..frames * 2].to_vec();
             let mut rw = FaultyRW::new(vec![0xEE; start], fail_at, mode, false, true);
             rw.pos = start as u64;
@@ -289,7 +332,9 @@ pub fn run(job: &Value, t: &mut Trace) -> usize {
         if reference.ret != "ok" {
             continue;
         }
-        for n in 1..=reference.calls {
+        // ("max_n": only the first calls of a long run are faulted - the later ones repeat the same situation block after block)
+        let last = sc["max_n"].as_u64().map(|m| (m as usize).min(reference.calls)).unwrap_or(reference.calls);
+        for n in 1..=last {
             for (mname, mode) in modes {
                 runs += 1;
                 let o = run_scenario(id, sc, n, mode);
